@@ -488,7 +488,7 @@ fn validate_map_field(field: &Field, _entry: &Field) -> Result<()> {
     if entry_fields.len() != 2 {
         fail!("Invalid child data type for map, expected struct with 2 fields");
     }
-    Ok(())
+    validate_field(entry)
 }
 
 fn validate_union_field(field: &Field, children: &[(i8, Field)], _mode: UnionMode) -> Result<()> {
